@@ -89,7 +89,7 @@ MissRet(cl) == IF cl.op = "get" THEN R(cl.a.mk, <<>>)
 \* order of events in a (possibly broken) execution
 NewCall(op, a, now, st, db) ==
     [op |-> op, a |-> a, now |-> now, st |-> st, exp |-> RNone, cand |-> {}, touched |-> {},
-     pb |-> <<>>, count |-> 0, busy |-> 0, fin |-> FALSE, nochange |-> TRUE,
+     pb |-> <<>>, count |-> 0, busy |-> 0, fin |-> FALSE, nochange |-> TRUE, tb |-> now,
      ukeys |-> KeysOf(db.rows), ikeys |-> KeysOf(db.rows)]
 
 FailKinds == {"Timeout", "OSError", "OperationalError", "InterfaceError", "ProgrammingError",
@@ -125,8 +125,7 @@ Refresh(Mo, dbNew, chg, me) ==
                         !.ikeys = @ \cap KeysOf(dbNew.rows)]]
 
 \* one step of a looping call at one of its commits -------------------------
-QueueLoopStep(db, cl) ==
-    \* returns [S, fin, ret]
+QueueLoopStepAt(db, cl) ==
     LET isItem == cl.op = "peekitem"
         back == IF isItem THEN B(cl.a.last) ELSE B(cl.a.back)
         e == IF isItem THEN (IF db.rows = <<>> THEN 0 ELSE IF back THEN Len(db.rows) ELSE 1)
@@ -139,6 +138,13 @@ QueueLoopStep(db, cl) ==
        ELSE [S |-> IF cl.op = "pull" THEN [db EXCEPT !.rows = RemoveAt(@, e)] ELSE db,
              fin |-> TRUE,
              ret |-> R("item", <<db.rows[e].key>> \o Payload(db.rows[e], Fl(cl)))]
+\* The queue loops look at the clock inside each of their transactions: whether the head has expired is judged at the
+\* instant of that transaction (a call that waited for the lock must not hand out an item that expired meanwhile).
+QueueLoopStep(db, cl0, now) ==
+    \* returns [S, fin, ret]
+    LET cl == [cl0 EXCEPT !.now = IF now > cl0.now THEN now ELSE cl0.now] IN
+    QueueLoopStepAt(db, cl)
+
 
 BulkMatches(db, cl, r) ==
     CASE cl.op = "clear"  -> TRUE
@@ -201,7 +207,9 @@ OnCommit(Mo, e) ==
        ELSE IF cl.op \in {"txend", "txbegin", "txraise"}
        THEN Fail(Mo, "C06 block bookkeeping: commit without an open block")
        ELSE IF IsQueueLoop(cl.op)
-       THEN LET s == QueueLoopStep(Mo.db, cl)
+       THEN LET \* the clock is read somewhere inside the transaction: any instant between its BEGIN and its COMMIT
+                T == {t \in cl.tb..Mo.now : ObsProj(e.rows) = Proj(QueueLoopStep(Mo.db, cl, t).S)}
+                s == QueueLoopStep(Mo.db, cl, IF T = {} THEN Mo.now ELSE CHOOSE t \in T : TRUE)
             IN IF cl.fin /\ ~Mo.faulty     \* (an unreadable value file counts as deleted: the loop goes on)
                THEN Fail(Mo, "C05 " \o cl.op \o " committed again after it had its result")
                ELSE IF ObsProj(e.rows) # Proj(s.S)
@@ -259,7 +267,7 @@ OnRollback(Mo, e) ==
                                !.call[c].st = "rolled"], "")
        ELSE IF IsLoopOp(cl.op)
        THEN V(TRUE, [Mo EXCEPT !.lock = 0, !.call[c].st = "rolled",
-                               !.call[c].exp = IF IsQueueLoop(cl.op) THEN QueueLoopStep(Mo.db, cl).ret ELSE RNone,
+                               !.call[c].exp = IF IsQueueLoop(cl.op) THEN QueueLoopStep(Mo.db, cl, Mo.now).ret ELSE RNone,
                                !.call[c].fin = TRUE], "")
        ELSE LET res == Dispatch(Mo.db, cl)
             IN V(TRUE, [Mo EXCEPT !.lock = 0, !.call[c].st = "rolled", !.call[c].exp = res.ret,
@@ -366,7 +374,11 @@ OnFile(Mo, e) ==
     ELSE IF e.ev = "fclose"
     THEN V(TRUE, [Mo EXCEPT !.partial = @ \ {e.f},
                             !.complete = IF e.f \in Mo.partial THEN @ \cup {e.f} ELSE @], "")
-    ELSE IF e.ev = "fopen" THEN V(TRUE, Mo, "")
+    ELSE IF e.ev = "fopen"
+    THEN \* a queue loop whose item's value file has vanished (another consumer took the item) looks again
+         IF e.ok = 0 /\ e.c \in DOMAIN Mo.call /\ IsQueueLoop(Mo.call[e.c].op) /\ Mo.call[e.c].fin
+         THEN V(TRUE, [Mo EXCEPT !.call[e.c].fin = FALSE], "")
+         ELSE V(TRUE, Mo, "")
     ELSE IF e.ev = "fremove"
     THEN IF e.ok = 0 THEN V(TRUE, Mo, "")
          ELSE IF e.f \in Mo.refs
@@ -401,6 +413,7 @@ MStep(Mo, e) ==
                                    \* the block's private view starts from the contents committed
                                    \* when it obtains the lock
                                    ELSE V(TRUE, [Mo EXCEPT !.lock = IF e.kind = "deferred" THEN @ ELSE e.c,
+                                                           !.call[e.c] = IF @.op = "none" THEN @ ELSE [@ EXCEPT !.tb = Mo.now],
                                                            !.tx[e.c].w = IF Mo.tx[e.c].d = 1 THEN Mo.db ELSE @], "")
                               ELSE \* a failed attempt to obtain the write lock
                                    V(TRUE, [Mo EXCEPT !.call[e.c] = IF @.op = "none" THEN @ ELSE [@ EXCEPT !.busy = @ + 1]], "")
@@ -412,7 +425,7 @@ MStep(Mo, e) ==
                               ELSE V(TRUE, Mo, "")
       [] e.ev = "final"    -> OnFinal(Mo, e)
       [] e.ev \in {"fcreate", "fwrite", "fclose", "fopen", "fremove"} -> OnFile(Mo, e)
-      [] e.ev = "tick"     -> V(TRUE, Mo, "")
+      [] e.ev = "tick"     -> V(TRUE, [Mo EXCEPT !.now = e.now], "")
       [] e.ev = "sqlerr"   -> V(TRUE, Mo, "")
       [] e.ev = "stuck"    -> Fail(Mo, "harness: schedule got stuck (every client waits for a lock nobody releases)")
       [] OTHER -> Fail(Mo, "harness: unknown event " \o e.ev)
